@@ -76,12 +76,12 @@ def render(seq, stack, ctx, flow, path, nw=1, nested=False):
             inner = render(kids, st, ctx, flow, path + ((c, i),), ctx.inw if not kids else nw, nested=True)
             if ctx.tail == 'LEADWS':
                 inner = '\n    ' + inner
-            if ctx.tail and ctx.tail not in ('NOWORD', 'ADJ', 'LEADWS'):
+            if ctx.tail and ctx.tail not in ('NOWORD', 'ADJ', 'ADJNL', 'LEADWS'):
                 inner += ' ' + ctx.tail
             if c == 'F':
                 out.append('\\foreignlanguage{%s}{%s}' % (l, inner))
             elif c == 'O':
-                out.append('\\begin{otherlanguage}{%s} %s \\end{otherlanguage}' % (l, inner))
+                out.append(('\\begin{otherlanguage}{%s}\n%s\n\\end{otherlanguage}' if ctx.tail == 'ADJNL' else '\\begin{otherlanguage}{%s} %s \\end{otherlanguage}') % (l, inner))
             else:
                 out.append('\\begin{otherlanguage*}{%s} %s \\end{otherlanguage*}' % (l, inner))
             rec = [before, ctx.n - n0, stack[-1], not kids]
@@ -100,13 +100,13 @@ def render(seq, stack, ctx, flow, path, nw=1, nested=False):
             out.append('\\textbf{%s}' % render(kids, stack, ctx, flow, path + (('B', i),), nw))
         if nested and ctx.tail == 'NOWORD' and i == len(seq) - 1:
             continue        # the inner construct closes together with the enclosing one
-        if ctx.tail == 'ADJ' and i < len(seq) - 1 and c in 'FOP' and ctx.C[seq[i + 1][0]][0] in 'FOP':
+        if ctx.tail in ('ADJ', 'ADJNL') and i < len(seq) - 1 and c in 'FOP' and ctx.C[seq[i + 1][0]][0] in 'FOP':
             continue        # two language constructs directly behind each other (no word between them)
         first = 'W' + chr(97 + ctx.n // 26) + chr(97 + ctx.n % 26) + 'q'
         out.append(' '.join(ctx.w(stack[-1], flow, path) for _ in range(nw)))
         if pend is not None:
             pend.append(first)
-    return ' '.join(out)
+    return ('\n' if ctx.tail == 'ADJNL' else ' ').join(out)
 
 
 def bad_shape(C, seq, stack, infoot, depth=0):
@@ -139,7 +139,7 @@ PREAMBLES = {
     'cls-en-pkg-de': ('\\documentclass[english]{article}\n\\usepackage[ngerman]{babel}\n', 'ru-RU', 'de-DE'),
     'cls-ru-pkg-none': ('\\documentclass[russian,a4paper]{scrartcl}\n\\usepackage[T1]{fontenc}\\usepackage{babel}\n', 'en-GB', 'ru-RU'),
 }
-TAILS = [None, '\\LaTeX', '\\xxx', 'NOWORD', 'ADJ', 'LEADWS']
+TAILS = [None, '\\LaTeX', '\\xxx', 'NOWORD', 'ADJ', 'ADJNL', 'LEADWS']
 
 
 class C12:
